@@ -17,6 +17,9 @@ partial def showVVal (m : VM) (v : VVal) : String :=
   | .list r => "(list" ++ String.join ((m.heap.getD r []).map (fun x => " " ++ showVVal m x)) ++ ")"
   | .fn _ _ => "(fn)"
   | .builtin n => "(builtin " ++ n ++ ")"
+  | .err c _ => "(error " ++ c ++ ")"
+  | .set r => "(set" ++ String.join ((m.heap.getD r []).map (fun x => " " ++ showVVal m x)) ++ ")"
+  | .map r => "(map" ++ String.join ((m.heap.getD r []).map (fun x => " " ++ showVVal m x)) ++ ")"
   | _ => "(other)"
 
 def showVM (r : VRes × VM) : String :=
